@@ -36,6 +36,9 @@ func newEngine() *engine {
 }
 
 func (e *engine) LoadedGroups() []GoRuleGroup {
+	if e.ruleSet == nil {
+		return nil
+	}
 	result := make([]GoRuleGroup, 0, len(e.ruleSet.groups))
 	for _, g := range e.ruleSet.groups {
 		result = append(result, *g)
